@@ -9,11 +9,13 @@ open Ak Ak.Proto CliGraph
 new <sw> <default|-> <decl>...     -> ok | err AssertionError     (sw = three bits: _no_log, _no_log_file, _help_if_no_args)
 single <sw>                        -> ok                          (ArgParser without commands)
 deps                               -> deps <name>:<dep>/<dep> ...        (internal, diagnostic)
-opt <parser|*> <flag|flagoff|const=V|value|pos1|pos?|pos*|pos+>[!][@dest] [+keyword…] <string>...   (value=D: default D; '!': required=True)   -> ok | err ArgumentError | err ValueError | err AssertionError
-parse <token>...                   -> ok <dest>=<value> ... | err SystemExit <code> | err <Exception>
+opt <parser|*> <flag|flagoff|const=V|value|ivalue|cvalue=A/B..|help|version=V|pos1|pos?|pos*|pos+>[!][@dest] [+keyword…] <string>...   (value=D: default D; ivalue: type=int; cvalue=A/B: choices=[A,B]; '!': required=True)   -> ok | err ArgumentError | err ValueError | err AssertionError
+optg <parser> <mutex|plain> <kind as above> [+keyword…] <string>...   the same through get_cmd_parser(p).add_mutually_exclusive_group() / .add_argument_group()
+parse <token>...                   -> ok <dest>=<value> ... | err SystemExit <code> | err SystemExit 0 V:<version text> | err <Exception>
+parset <token>...                  -> like parse, the arguments passed as a tuple
 parsev <token>...                  -> like parse, through parse_args() with sys.argv set
 parse2 <token>...                  -> <reply of parse> | <reply of a second parse_args with the same list object>
-lst <token>...                     -> L:<the caller's list after parse_args>                        (diagnostic)
+lst <token>...                     -> L:<the caller's list after parse_args>
 ```
 strings are comma separated code points. After a failed `opt` the parser object is abandoned
 (`poisoned`); without a successfully built parser every line answers `no-parser`. -/
@@ -36,7 +38,7 @@ def optStringOk (pos : Bool) (s : Name) : Bool :=
     | [] => false
   else
     match s with
-    | ['-', c] => isLower c
+    | ['-', c] => isLower c || c.isUpper
     | '-' :: '-' :: c :: r => isLower c && r.all (fun x => isWordCh x || x = '-')
     | _ => false
 
@@ -61,6 +63,7 @@ def showVal : Val → String
   | .none => "N"
   | .str s => "s:" ++ showCps s
   | .nat n => "n:" ++ toString n
+  | .int i => "n:" ++ toString i
   | .list l => "l:" ++ "/".intercalate (l.map showCps)
 
 def showNs (ns : Ns) : String :=
@@ -70,6 +73,7 @@ def showFail : Fail → String
   | .exc e => "err " ++ e.name
   | .argumentError => "err ArgumentError"
   | .exit c => "err SystemExit " ++ toString c
+  | .version v => "err SystemExit 0 V:" ++ showCps v
   | .ood => "ood"
 
 def parseStrs (l : List String) : Option (List Name) := l.mapM parseCps
@@ -90,7 +94,7 @@ def showList (l : List (Option Name)) : String :=
   "L:" ++ "/".intercalate (l.map fun x => match x with | some n => showCps n | none => "N")
 
 /-- `flag`, `flagoff`, `const=<cps>`, `value`, `pos1`, `pos?`, `pos*`, `pos+`, each optionally followed by `@<dest cps>` -/
-def parseKind (t : String) : Option (Kind × Option Name × Bool × Option Name) :=
+def parseKind (t : String) : Option (Kind × Option Name × Bool × Option Name × Conv) :=
   let parts := t.splitOn "@"
   let dest : Option (Option Name) := match parts with
     | [_] => some none
@@ -101,17 +105,43 @@ def parseKind (t : String) : Option (Kind × Option Name × Bool × Option Name)
     | [] => ""
   let req := k0.endsWith "!"
   let k := if req then (k0.dropEnd 1).toString else k0
-  let kind : Option (Kind × Option Name) :=
-    if k = "flag" then some (.flag, none) else if k = "flagoff" then some (.flagOff, none)
-    else if k = "value" then some (.value, none)
-    else if k = "pos1" then some (.pos .one, none) else if k = "pos?" then some (.pos .opt, none)
-    else if k = "pos*" then some (.pos .star, none) else if k = "pos+" then some (.pos .plus, none)
-    else if k.startsWith "const=" then (parseCps (k.drop 6).toString).map (fun v => (Kind.const v, none))
-    else if k.startsWith "value=" then (parseCps (k.drop 6).toString).map (fun v => (Kind.value, some v))
+  let kind : Option (Kind × Option Name × Conv) :=
+    if k = "flag" then some (.flag, none, .str) else if k = "flagoff" then some (.flagOff, none, .str)
+    else if k = "value" then some (.value, none, .str)
+    else if k = "ivalue" then some (.value, none, .int)
+    else if k.startsWith "cvalue=" then
+      (((k.drop 7).toString.splitOn "/").mapM parseCps).map (fun l => (Kind.value, none, Conv.oneOf l))
+    else if k = "help" then some (.help, none, .str)
+    else if k.startsWith "version=" then (parseCps (k.drop 8).toString).map (fun v => (Kind.version v, none, .str))
+    else if k = "pos1" then some (.pos .one, none, .str) else if k = "pos?" then some (.pos .opt, none, .str)
+    else if k = "pos*" then some (.pos .star, none, .str) else if k = "pos+" then some (.pos .plus, none, .str)
+    else if k.startsWith "const=" then (parseCps (k.drop 6).toString).map (fun v => (Kind.const v, none, .str))
+    else if k.startsWith "value=" then (parseCps (k.drop 6).toString).map (fun v => (Kind.value, some v, .str))
     else none
   match kind, dest with
-  | some (kd, df), some d => some (kd, d, req, df)
+  | some (kd, df, cv), some d => some (kd, d, req, df, cv)
   | _, _ => none
+
+/-- the checks on an `opt` / `optg` request (ASSUMPTIONS of the harness) and the spec it describes -/
+def mkSpec (kind : String) (strs0 : List String) : Option OptSpec :=
+  -- tokens `+help=…`, `+metavar`, `+type` … are keywords that do not decide the option's kind: opaque data,
+  -- neither `declare` nor `addOption` inspects them
+  let strs := strs0.filter (fun t => !t.startsWith "+")
+  match parseKind kind, parseStrs strs with
+  | some (k, dst, req, df, cv), some ss =>
+    if ss.isEmpty || !(ss.all (optStringOk k.isPos)) || (k.isPos && (ss.length != 1 || dst.isSome))
+        || !ss.Nodup || (k.isPos && req) || (k.isInfo && (req || dst.isSome)) then none
+    else some { strings := ss, kind := k, mutex := false, dest := dst, required := req, dflt := df, conv := cv }
+  | _, _ => none
+
+def parseWith (s : DSt) (toks : List String) (f : ArgP → List (Option Name) → String) : DSt × String :=
+  match s with
+  | .empty => (s, "no-parser")
+  | .poisoned => (s, "poisoned")
+  | .ready ap =>
+    match parseStrs toks with
+    | some ts => if !(ts.all tokOk) then (s, "bad-op") else (s, f ap (ts.map some))
+    | none => (s, "bad-op")
 
 def handle (s : DSt) (line : String) : DSt × String :=
   match splitWs line with
@@ -138,66 +168,42 @@ def handle (s : DSt) (line : String) : DSt × String :=
     | .poisoned => (s, "poisoned")
     | .empty => (s, "no-parser")
   | "opt" :: target :: kind :: strs0 =>
-    -- tokens `+help=…`, `+metavar`, `+type` … are keywords that do not decide the option's kind: opaque data,
-    -- neither `declare` nor `addOption` inspects them
-    let strs := strs0.filter (fun t => !t.startsWith "+")
     match s with
     | .empty => (s, "no-parser")
     | .poisoned => (s, "poisoned")
     | .ready ap =>
-      match (if target = "*" then some none else (parseCps target).map some), parseKind kind, parseStrs strs with
-      | some tg, some (k, dst, req, df), some ss =>
-        if ss.isEmpty || !(ss.all (optStringOk k.isPos)) || (k.isPos && (ss.length != 1 || dst.isSome))
-            || !ss.Nodup || (k.isPos && req) then (s, "bad-op")
+      match (if target = "*" then some none else (parseCps target).map some), mkSpec kind strs0 with
+      | some tg, some spec =>
+        match ap.addOption tg spec with
+        | .ok ap' => (.ready ap', "ok")
+        | .error (.exc e) => (s, "err " ++ e.name)      -- get_cmd_parser failed: nothing was touched
+        | .error e => (.poisoned, showFail e)
+      | _, _ => (s, "bad-op")
+  | "optg" :: target :: grp :: kind :: strs0 =>
+    match s with
+    | .empty => (s, "no-parser")
+    | .poisoned => (s, "poisoned")
+    | .ready ap =>
+      -- one fresh group per request, so a mutually exclusive group has a single member and excludes nothing
+      match parseCps target, mkSpec kind strs0, (grp = "mutex" || grp = "plain") with
+      | some tg, some spec, true =>
+        if spec.kind.isPos && grp = "mutex" then (s, "bad-op")     -- argparse: mutually exclusive arguments must be optional
         else
-          match ap.addOption tg { strings := ss, kind := k, mutex := false, dest := dst, required := req, dflt := df } with
+          match ap.addViaGroup tg spec with
           | .ok ap' => (.ready ap', "ok")
-          | .error (.exc e) => (s, "err " ++ e.name)      -- get_cmd_parser failed: nothing was touched
+          | .error (.exc e) => (s, "err " ++ e.name)
           | .error e => (.poisoned, showFail e)
       | _, _, _ => (s, "bad-op")
   | "parsev" :: toks =>          -- parse_args() reading sys.argv: the same vector, a private copy
-    match s with
-    | .empty => (s, "no-parser")
-    | .poisoned => (s, "poisoned")
-    | .ready ap =>
-      match parseStrs toks with
-      | some ts =>
-        if !(ts.all tokOk) then (s, "bad-op")
-        else (s, showRes (parseList cfg ap (ts.map some)).1)
-      | none => (s, "bad-op")
-  | "parse" :: toks =>
-    match s with
-    | .empty => (s, "no-parser")
-    | .poisoned => (s, "poisoned")
-    | .ready ap =>
-      match parseStrs toks with
-      | some ts =>
-        if !(ts.all tokOk) then (s, "bad-op")
-        else (s, showRes (parseList cfg ap (ts.map some)).1)
-      | none => (s, "bad-op")
+    parseWith s toks fun ap l => showRes (parseList cfg ap l).1
+  | "parse" :: toks => parseWith s toks fun ap l => showRes (parseCall cfg ap false l).1
+  | "parset" :: toks => parseWith s toks fun ap l => showRes (parseCall cfg ap true l).1
   | "parse2" :: toks =>
-    match s with
-    | .empty => (s, "no-parser")
-    | .poisoned => (s, "poisoned")
-    | .ready ap =>
-      match parseStrs toks with
-      | some ts =>
-        if !(ts.all tokOk) then (s, "bad-op")
-        else
-          let r1 := parseList cfg ap (ts.map some)
-          let r2 := parseList cfg ap r1.2
-          (s, showRes r1.1 ++ " | " ++ showRes r2.1)
-      | none => (s, "bad-op")
-  | "lst" :: toks =>
-    match s with
-    | .empty => (s, "no-parser")
-    | .poisoned => (s, "poisoned")
-    | .ready ap =>
-      match parseStrs toks with
-      | some ts =>
-        if !(ts.all tokOk) then (s, "bad-op")
-        else (s, showList (parseList cfg ap (ts.map some)).2)
-      | none => (s, "bad-op")
+    parseWith s toks fun ap l =>
+      let r1 := parseCall cfg ap false l
+      let r2 := parseCall cfg ap false r1.2
+      showRes r1.1 ++ " | " ++ showRes r2.1
+  | "lst" :: toks => parseWith s toks fun ap l => showList (parseCall cfg ap false l).2
   | _ => (s, "bad-op")
 
 def main : IO Unit := runS handle DSt.empty
